@@ -68,5 +68,37 @@ def proceed_shape(repo):
                 parts.append(x)
             out.append(" or ".join(sorted(parts)))
         return out
-    return SimpleNamespace(pr=pr, loop=loop, sel=sel, acc=acc, fn=fnparam, inner=inner, itor=itor, fitvar=fitvar, fit_lit=f"{fitvar} is not False", keeps=keeps,
+    # the memo of the fit, in either spelling:  v = C.get(K); if v is None: v = fits(..); C[K] = v   |   if K in C: v = C[K] else: v = fits(..); C[K] = v
+    memo = SimpleNamespace(ok=False, why="no lookup of the fit in _selector_fit_cache found", key=None, form=None)
+    key_want = f"({fnparam}, {sel})"
+
+    def keytext(e):
+        t = expand(e, pr.node)
+        return t if t.startswith("(") else f"({t})"
+    reads = []
+    for n in ast.walk(loop):
+        if isinstance(n, ast.Assign) and len(n.targets) == 1 and is_name(n.targets[0], str(fitvar)):
+            v = n.value
+            if isinstance(v, ast.Call) and norm(v.func) == "_selector_fit_cache.get" and len(v.args) == 1:
+                reads.append(("get", n, keytext(v.args[0])))
+            elif isinstance(v, ast.Subscript) and norm(v.value) == "_selector_fit_cache":
+                reads.append(("in", n, keytext(v.slice)))
+    computes = [n for n in ast.walk(loop) if isinstance(n, ast.Assign) and len(n.targets) == 1 and is_name(n.targets[0], str(fitvar)) and norm(n.value) == f"fits_selector({fnparam}, {sel})"]
+    stores = [n for n in ast.walk(pr.node) if isinstance(n, (ast.Assign, ast.AugAssign)) and any(norm(t).startswith("_selector_fit_cache[") for t in (n.targets if isinstance(n, ast.Assign) else [n.target]))]
+    if len(reads) == 1 and len(computes) == 1:
+        form, rd, key = reads[0]
+        raw_keys = {norm(rd.value.args[0]) if form == "get" else norm(rd.value.slice)}
+        if form == "get":
+            miss = [f"{fitvar} is None"]
+            hit_ok = conds(rd, loop) == [] and order(rd) < order(computes[0])
+        else:
+            hits = [c for c in conds(rd, loop)]
+            miss = [f"{k} not in _selector_fit_cache" for k in raw_keys]
+            hit_ok = hits == [f"{k} in _selector_fit_cache" for k in raw_keys]
+        stores_ok = all(isinstance(n, ast.Assign) and keytext(n.targets[0].slice) == key and norm(n.value) == fitvar and conds(n, loop) == miss for n in stores)
+        memo = SimpleNamespace(ok=key == key_want and hit_ok and conds(computes[0], loop) == miss and stores_ok, key=key, form=form,
+                               why=f"lookup `{norm(rd)}` (key {key}), computed when {conds(computes[0], loop)}, stores {[norm(n) for n in stores]}")
+    elif len(reads) != 1:
+        memo.why = f"{len(reads)} lookups of the fit found"
+    return SimpleNamespace(memo=memo, pr=pr, loop=loop, sel=sel, acc=acc, fn=fnparam, inner=inner, itor=itor, fitvar=fitvar, fit_lit=f"{fitvar} is not False", keeps=keeps,
                            child_loops=child_loops, pushes=pushes, others=others, inits=inits, itor_defs=itor_defs, forks=forks, regs=regs, ret=r, xconds=xconds)
